@@ -14,6 +14,8 @@ static int verif_call_log = 0;
 static _supla_int_t verif_value_changed(void *srpc, unsigned char ch, char *value);
 static _supla_int_t verif_set_result(void *srpc, unsigned char ch, _supla_int_t sender, char success);
 static _supla_int_t verif_ext_changed(void *srpc, unsigned char ch, TSuplaChannelExtendedValue *v);
+static _supla_int_t verif_action_trigger(void *srpc, TDS_ActionTrigger *at);
+#define srpc_ds_async_action_trigger verif_action_trigger
 #define srpc_ds_async_channel_value_changed verif_value_changed
 #define srpc_ds_async_set_channel_result verif_set_result
 #define srpc_ds_async_channel_extendedvalue_changed verif_ext_changed
@@ -22,6 +24,12 @@ static _supla_int_t verif_ext_changed(void *srpc, unsigned char ch, TSuplaChanne
 #undef srpc_ds_async_channel_value_changed
 #undef srpc_ds_async_set_channel_result
 #undef srpc_ds_async_channel_extendedvalue_changed
+#undef srpc_ds_async_action_trigger
+static _supla_int_t verif_action_trigger(void *srpc, TDS_ActionTrigger *at) {
+  _supla_int_t r = srpc_ds_async_action_trigger(srpc, at);
+  if (verif_call_log) sdk_out("CALL at %u %d", at->ChannelNumber, r != 0);
+  return r;
+}
 static _supla_int_t verif_value_changed(void *srpc, unsigned char ch, char *value) {
   _supla_int_t r = srpc_ds_async_channel_value_changed(srpc, ch, value);
   if (verif_call_log) sdk_out("CALL value %u %d %d", ch, value[0], r != 0);
@@ -211,6 +219,10 @@ static int board_preset(const char *name, int flags) {
   return -1;
 }
 
+static void dcstate(void) {
+  sdk_out("DCSTATE started=%d srpc=%d registered=%d sendbuf=%d recvbuf=%d conn=%d", devconn->started, devconn->srpc != NULL,
+          devconn->registered, (int)devconn->esp_send_buffer_len, (int)devconn->recvbuff_size, sdk_conn_open);
+}
 static void device_init(int registered) {
   memset(&supla_esp_cfg, 0, sizeof(supla_esp_cfg));
   memset(&supla_esp_state, 0, sizeof(supla_esp_state));
@@ -329,6 +341,8 @@ int main(void) {
         sdk_input_set(atoi(ops_tok[1]), atoi(ops_tok[2]));
       } else if (!strcmp(op, "reg") && ops_ntok == 2) {
         devconn->registered = atoi(ops_tok[1]);
+      } else if (!strcmp(op, "espclear")) {
+        sdk_esp_script_len = sdk_esp_script_pos = 0;
       } else if (!strcmp(op, "esp")) {
         for (int i = 1; i < ops_ntok && sdk_esp_script_len < SDK_ESP_SCRIPT_MAX; i++)
           sdk_esp_script[sdk_esp_script_len++] = atoi(ops_tok[i]);
@@ -408,6 +422,73 @@ int main(void) {
           }
           sdk_quiet_gpio = 0;
         }
+      } else if (!strcmp(op, "netstart")) { /* C04: the real start path (wifi -> dns -> tcp) */
+        sdk_sent_requires_open = 1;
+        supla_esp_devconn_start();
+        dcstate();
+      } else if (!strcmp(op, "wifi") && ops_ntok == 2) { /* station status as the SDK reports it (5 = GOT_IP) */
+        sdk_wifi_status = atoi(ops_tok[1]);
+      } else if (!strcmp(op, "dnsreply") && ops_ntok == 2) { /* a.b.c.d or none */
+        if (!sdk_dns_cb) sdk_out("NODNS");
+        else {
+          dns_found_callback cb = sdk_dns_cb; sdk_dns_cb = NULL;
+          if (!strcmp(ops_tok[1], "none")) cb(sdk_dns_name, NULL, sdk_dns_arg);
+          else { ip_addr_t ip; ip.addr = ipaddr_addr(ops_tok[1]); cb(sdk_dns_name, &ip, sdk_dns_arg); }
+        }
+        dcstate();
+      } else if (!strcmp(op, "tcpup")) { /* the SDK reports the requested connection as established */
+        if (sdk_conn_open == 1 && sdk_last_conn && sdk_last_conn->proto.tcp && sdk_last_conn->proto.tcp->connect_callback) {
+          sdk_conn_open = 2;
+          sdk_out("TCPUP");
+          sdk_last_conn->proto.tcp->connect_callback(sdk_last_conn);
+        } else sdk_out("NOPENDINGCONNECT");
+        dcstate();
+      } else if (!strcmp(op, "tcpdown")) { /* the connection is lost / closed by the peer */
+        if (sdk_conn_open == 2 && sdk_last_conn && sdk_last_conn->proto.tcp && sdk_last_conn->proto.tcp->disconnect_callback) {
+          sdk_conn_open = 0;
+          sdk_out("TCPDOWN");
+          sdk_last_conn->proto.tcp->disconnect_callback(sdk_last_conn);
+        } else sdk_out("NOTCONNECTED");
+        dcstate();
+      } else if (!strcmp(op, "recv") && ops_ntok == 2) { /* raw bytes from the server on the open connection */
+        long n = ops_hex(ops_tok[1], buf, sizeof(buf));
+        if (n < 0) sdk_out("BADOP");
+        else if (sdk_conn_open != 2 || !sdk_last_conn || !sdk_last_conn->recv_callback) sdk_out("NOTCONNECTED");
+        else sdk_last_conn->recv_callback(sdk_last_conn, (char *)buf, (unsigned short)n);
+        dcstate();
+      } else if (!strcmp(op, "gotip")) { /* what supla_esp_wifi.c reports on a status change to GOT_IP */
+        supla_esp_devconn_on_wifi_status_changed(STATION_GOT_IP);
+        dcstate();
+      } else if (!strcmp(op, "dnsfound") && ops_ntok == 2) { /* final DNS outcome: a.b.c.d or none */
+        if (!devconn->resolving_started) sdk_out("NOTRESOLVING");
+        else {
+          sdk_dns_cb = NULL;
+          if (!strcmp(ops_tok[1], "none")) supla_esp_devconn_dns__found(NULL);
+          else { ip_addr_t ip; ip.addr = ipaddr_addr(ops_tok[1]); supla_esp_devconn_dns__found(&ip); }
+        }
+        dcstate();
+      } else if (!strcmp(op, "fire") && ops_ntok == 2) { /* run one of devconn's timers now */
+        if (!strcmp(ops_tok[1], "iterate")) {
+          if (devconn->srpc) supla_esp_devconn_iterate(NULL); else sdk_out("NOTARMED");
+        } else if (!strcmp(ops_tok[1], "recon")) {
+          if (sdk_timer_armed(&devconn->reconnect_delay_timer)) { os_timer_disarm(&devconn->reconnect_delay_timer); supla_esp_devconn__reconnect(NULL); }
+          else sdk_out("NOTARMED");
+        } else if (!strcmp(ops_tok[1], "stop")) {
+          if (sdk_timer_armed(&devconn->stop_delay_timer)) { os_timer_disarm(&devconn->stop_delay_timer); supla_esp_devconn__stop(NULL); }
+          else sdk_out("NOTARMED");
+        } else if (!strcmp(ops_tok[1], "timer1")) {
+          supla_esp_devconn_timer1_cb(NULL);
+        } else sdk_out("BADOP");
+        dcstate();
+      } else if (!strcmp(op, "localev") && ops_ntok == 2) { /* the device wants to talk: 0 value, 1 extended value, 2 action trigger */
+        int k = atoi(ops_tok[1]);
+        if (k == 0) supla_esp_channel_value_changed(0, 1);
+        else if (k == 1) { TSuplaChannelExtendedValue ev; memset(&ev, 0, sizeof(ev)); supla_esp_channel_extendedvalue_changed(0, &ev); }
+        else supla_esp_devconn_send_action_trigger(0, 1);
+        if (supla_esp_devconn_is_registered()) supla_esp_devconn_iterate(NULL);   /* what an accepted async call triggers: flush */
+        dcstate();
+      } else if (!strcmp(op, "dcstate")) {
+        dcstate();
       } else if (!strcmp(op, "calllog") && ops_ntok == 2) {
         verif_call_log = atoi(ops_tok[1]); fw_hook_relay_log = verif_call_log;
       } else if (!strcmp(op, "staircase") && ops_ntok == 4) { /* channel Time2(ms) StaircaseButtonType */
